@@ -6,6 +6,7 @@ package main
 // input line, one transcript (JSON) per output line.
 
 import (
+	"bytes"
 	"sync"
 	"context"
 	"encoding/hex"
@@ -308,6 +309,16 @@ func (t *simTransport) Send(ctx context.Context, d []byte) ([]byte, error) {
 				reply = append([]byte{}, reply[:16+k]...)
 				reply[14], reply[15] = byte(k), byte(k>>8)
 			}
+		}
+	case "extend":
+		// the genuine reply with surplus bytes behind it (a trailer longer than the AuthCode)
+		if reply != nil {
+			reply = append(append([]byte{}, reply...), bytes.Repeat([]byte{0x5c}, atoi(arg))...)
+		}
+	case "cutsig":
+		// the genuine reply with its last bytes missing (an AuthCode that is too short, or absent)
+		if reply != nil && len(reply) > atoi(arg) {
+			reply = append([]byte{}, reply[:len(reply)-atoi(arg)]...)
 		}
 	case "badsig":
 		if len(reply) > 0 {
